@@ -139,7 +139,8 @@ CLAIMED = {
             "message well-formed and its keys hash equals the operator's; the Ledger command finishes only if the "
             "BTC path key is present and equals the UI-attested key at its offset, both targets are valid, and "
             "the signer message (legacy: nothing after the hash; current: exact length) reports the operator's "
-            "keys hash; printed values are the slices. Tied to the real do_verify_attestation (files in a temp "
+            "keys hash, and conversely it does finish, printing exactly those slices, whenever these conditions hold "
+            "(ledger_ok_if_current, ledger_ok_if_legacy); printed values are the slices. Tied to the real do_verify_attestation (files in a temp "
             "dir, stdout parsed) by correspondence over genuine triples and the listed variants.",
             "certificate verdicts come from the chain model + independent link table; SHA-256 uninterpreted"),
     "C09": ("Lean theorems about the bring-up model for EVERY device behaviour (every script of answers, any "
